@@ -19,7 +19,7 @@ variable (H : Bytes → Bytes)
 
 /-- the txid is the hash of the witness-stripped (legacy) serialisation -/
 theorem txid_eq_spec (t : Tx) (wf : WFTx t) : getTxidWith H t = .ok (Spec.Ident.txid H t) := by
-  rw [getTxidWith_eq H t wf.2.2.2.2.2.2.2.2.1 wf.2.2.2.2.2.2.2.2.2,
+  rw [getTxidWith_eq H t wf.2.2.2.2.2.2.2.2.1 (ctorValid_of_wf wf),
     C01_ser_strip t wf]
   rfl
 where
@@ -28,11 +28,24 @@ where
 
 /-- the txid is unchanged by adding, removing or altering witness data: any two witness assignments
     (any number of stacks, all-empty stacks and the witness object without entries included) give
-    the same result — no other hypothesis on the transaction is needed -/
+    the same result.  The only hypothesis on the transaction is that the stripped copy `GetTxid`
+    builds passes the `CTransaction`/`CTxIn`/`COutPoint` constructors (`ctorValid`; implied by `WFTx`,
+    always true of immutable objects) — the result may still be the same *error* on both sides. -/
 theorem txid_witness_indep (t : Tx) (w w' : List WitStack) (hw : ∀ s ∈ w, WFWitStack s)
-    (hw' : ∀ s ∈ w', WFWitStack s) (hl : t.nLockTime < 2 ^ 32) :
+    (hw' : ∀ s ∈ w', WFWitStack s) (hc : ctorValid t = true) :
     getTxidWith H { t with wit := w } = getTxidWith H { t with wit := w' } := by
-  rw [getTxidWith_eq H { t with wit := w } hw hl, getTxidWith_eq H { t with wit := w' } hw' hl]
+  rw [getTxidWith_eq H { t with wit := w } hw hc, getTxidWith_eq H { t with wit := w' } hw' hc]
+
+/-- between two witness objects that both have entries, no hypothesis on the fields at all: when the
+    constructors refuse the stripped copy both sides raise ValueError -/
+theorem txid_witness_indep_entries (t : Tx) (w w' : List WitStack) (hw : ∀ s ∈ w, WFWitStack s)
+    (hw' : ∀ s ∈ w', WFWitStack s) (hn : w ≠ []) (hn' : w' ≠ []) :
+    getTxidWith H { t with wit := w } = getTxidWith H { t with wit := w' } := by
+  cases hc : ctorValid t with
+  | true => exact txid_witness_indep H t w w' hw hw' hc
+  | false =>
+    rw [getTxidWith_valueerr H { t with wit := w } hw hn hc,
+      getTxidWith_valueerr H { t with wit := w' } hw' hn' hc]
 
 /-! ### wtxid -/
 
@@ -108,7 +121,9 @@ theorem blockhash_eq_spec (b : Block) (wf : WFHeader b.hdr) :
     rfl
   · simp [header, leBytesInt_length, hp, hm]
 
-/-- … whatever transactions it carries (no hypothesis at all) -/
+/-- … whatever transactions it carries (no hypothesis at all).  NOTE: true by `rfl` — `blockHashWith`
+    never reads `vtx`, exactly as `CBlock.GetHash` hashes `get_header()`; the statement records that
+    shape, its behavioural content is the differential run (blocks sharing a header). -/
 theorem blockhash_indep_vtx (h : Header) (v v' : List Tx) :
     blockHashWith H { hdr := h, vtx := v } = blockHashWith H { hdr := h, vtx := v' } := rfl
 
@@ -179,7 +194,11 @@ theorem hash_eq_of_ser_eq (pyHash : Bytes → Int) (a b : TxObj) (h : serTx a.va
   rw [h]
 
 /-- a mutable and an immutable object with equal field values report identical txid, wtxid,
-    equality and Python hash -/
+    equality and Python hash.  NOTE: three of the four conjuncts are `rfl` because the model's
+    functions never read the class tag (`GetTxid`, `GetHash`, `__eq__`, `__hash__` are inherited
+    unchanged by the mutable classes; what differs in Python — `__make_mutable` undoing the cached
+    `GetHash`/`__hash__` — is C09's heap model).  The clause is carried by the differential run
+    (`c02.obj`, `c02.objpair`, `c02.pyhash`) and by `C09.heap_ident_eq_value`. -/
 theorem ids_of_equal_fields (pyHash : Bytes → Int) (t : Tx) (wf : WFTx t) :
     let a : TxObj := ⟨.immutable, t⟩
     let b : TxObj := ⟨.mutable, t⟩
@@ -190,11 +209,29 @@ theorem ids_of_equal_fields (pyHash : Bytes → Int) (t : Tx) (wf : WFTx t) :
 
 /-! ### every serialisable class (COutPoint … CBlock and the mutable twins) -/
 
-/-- `==` between two objects of a class pair holds exactly when their serialisations are the same
-    byte string — the class tags (mutable / immutable) do not enter -/
-theorem objEq_iff_ser_eq (a b : PyObj) :
-    objEq a b = .ok true ↔ ∃ bs, a.val.ser = .ok bs ∧ b.val.ser = .ok bs := by
+theorem objEq_same_family (a b : PyObj) (hf : a.val.family = b.val.family) :
+    objEq a b = (a.val.ser >>= fun x => b.val.ser >>= fun y => pure (x == y)) := by
   unfold objEq
+  simp only [hf, ne_eq, not_true_eq_false, if_false]
+
+/-- objects of classes that are not related by `isinstance` (e.g. `CScriptWitness` and
+    `CTxInWitness`, which serialise identically): `__eq__` returns `NotImplemented` in both directions
+    and `==` is `False`, whatever the serialisations -/
+theorem objEq_cross_family (a b : PyObj) (h : a.val.family ≠ b.val.family) : objEq a b = .ok false := by
+  unfold objEq
+  simp only [h, ne_eq, not_false_eq_true, if_true]
+  rfl
+
+/-- `==` between two objects of one class family (mutable/immutable twins; header/block) holds
+    exactly when their serialisations are the same byte string.  NOTE: the class tag `cls` is not read
+    by `objEq` — that the mutable class behaves like the immutable one is *built into* this model
+    (it mirrors `Serializable.__eq__`, which the mutable classes inherit unchanged); the content of
+    the mutable/immutable clause is carried by the differential run and by C09
+    (`C09.heap_ident_eq_value`, `C09.heap_pyhash_eq_value`: cached or not, mutable or not, the heap
+    object reports the identifiers of its current field values). -/
+theorem objEq_iff_ser_eq (a b : PyObj) (hf : a.val.family = b.val.family) :
+    objEq a b = .ok true ↔ ∃ bs, a.val.ser = .ok bs ∧ b.val.ser = .ok bs := by
+  rw [objEq_same_family a b hf]
   cases ha : a.val.ser with
   | error e => simp [err_bind]
   | ok x =>
@@ -220,12 +257,13 @@ theorem objEq_iff_ser_eq (a b : PyObj) :
 /-- objects with different serialisations compare unequal, whatever their classes -/
 theorem objEq_false_of_ser_ne (a b : PyObj) (x y : Bytes) (ha : a.val.ser = .ok x) (hb : b.val.ser = .ok y)
     (hne : x ≠ y) : objEq a b = .ok false := by
-  unfold objEq
-  rw [ha, hb]
-  simp only [ok_bind]
-  show (Except.ok (x == y) : Res Bool) = _
-  have : (x == y) = false := by simpa using hne
-  rw [this]
+  by_cases hf : a.val.family = b.val.family
+  · rw [objEq_same_family a b hf, ha, hb]
+    simp only [ok_bind]
+    show (Except.ok (x == y) : Res Bool) = _
+    have : (x == y) = false := by simpa using hne
+    rw [this]
+  · exact objEq_cross_family a b hf
 
 /-- the Python hash is a function of the serialisation only: equal serialisations, equal hashes —
     in particular a mutable object and its immutable twin are interchangeable as dict / set keys -/
@@ -242,15 +280,17 @@ theorem obj_getHash_eq (o : Obj) :
   cases o <;> simp only [Obj.getHashWith] <;> (cases Obj.ser _ <;> rfl)
 
 /-- a mutable and an immutable object of any class with equal field values: identical `GetHash()`,
-    `==` in both directions and identical Python hash (whenever the fields serialise at all) -/
+    `==` in both directions and identical Python hash (whenever the fields serialise at all).
+    NOTE: definitional in this model (the class tag is never read, see `objEq_iff_ser_eq`); the
+    bridge that gives the clause content is `C09.heap_ident_eq_value`. -/
 theorem obj_class_indep (pyHash : Bytes → Int) (o : Obj) (bs : Bytes) (hs : o.ser = .ok bs) :
     let a : PyObj := ⟨.immutable, o⟩
     let b : PyObj := ⟨.mutable, o⟩
     a.val.getHashWith H = b.val.getHashWith H ∧ objEq a b = .ok true ∧ objEq b a = .ok true ∧
     objPyHashWith pyHash a = objPyHashWith pyHash b ∧ objPyHashWith pyHash a = .ok (pyHash bs) := by
   refine ⟨rfl, ?_, ?_, rfl, ?_⟩
-  · exact (objEq_iff_ser_eq _ _).2 ⟨bs, hs, hs⟩
-  · exact (objEq_iff_ser_eq _ _).2 ⟨bs, hs, hs⟩
+  · exact (objEq_iff_ser_eq _ _ rfl).2 ⟨bs, hs, hs⟩
+  · exact (objEq_iff_ser_eq _ _ rfl).2 ⟨bs, hs, hs⟩
   · show (o.ser >>= fun x => pure (pyHash x)) = _
     rw [hs]; rfl
 
